@@ -28,6 +28,11 @@ def run(ck: Check) -> None:
         thr = rng.randint(1, len(ks))
         trusted = gen.envelope(gen.delegating_md("root", {R: gen.delegation(ks, thr), "zz": gen.delegation([gen.key(9)], 1)}, version=2))
         signed = gen.delegating_md(T, {"root": gen.delegation(ks, 1)}, version=rng.randint(1, 3))
+        if i % 3 == 0:
+            # any well-formed metadata is typed, whatever its dates say: expiry before / equal to the timestamp, far past, far future, odd-but-accepted spellings
+            ts, ex = rng.choice([("2020-07-13T05:46:45Z", "2020-07-13T05:46:45Z"), ("2021-01-01T00:00:00Z", "2020-01-01T00:00:00Z"), ("9999-12-31T23:59:59Z", "0001-01-01T00:00:00Z"),
+                                 ("2020-1-1T1:1:1Z", "2019-1-1T1:1:1Z"), ("2020-02-29T12:00:00Z", "2000-02-29T00:00:00Z")])
+            signed["timestamp"], signed["expiration"] = ts, ex
         u = gen.sign_env(gen.envelope(signed), ks, gpg, rng)
         variants = [("plain", u)]
         for _ in range(3):
